@@ -198,6 +198,9 @@ def r03_6(ctx):
     r02_3(ctx)
     r02_4(ctx)
     r02_5(ctx)
+    # the collocation quadrature (ocp.integral under DirectCollocation): weights B_j times the step of the same interval
+    from .c05 import r05_3
+    r05_3(ctx)
 
 
 @rule("R03.7", min_instances=2, desc="a grid='bspline' signal in the dynamics is a function of time inside the integrator too: the value handed to the M sub-steps of interval k must not be the single sample at t_k")
